@@ -22,6 +22,7 @@ type Contract struct {
 	Locked        bool   // `locked`: the function is entered (and left) with the UI mutex held
 	Arith2        string // "heapwf": state heap well-formedness (all stored refs < alloc) before every allocation
 	Deterministic bool
+	StoreOnly     []StoreOnly // `storeonly T.field expr`: every store to that field in this function goes through the object expr
 	Order         bool // `strorder`: the order-preserving content homomorphism nsx (blank cells removed) is in play
 	Prov          bool // `provenance`: values embedded in a JSON document inherit its servedBy (axiom about decoded documents)
 	Cells         bool // `cells`: the function handles the match lists of ansi.expand (cell model on loads)
@@ -46,6 +47,13 @@ type Contract struct {
 	BackEdges map[int][]Clause // `loop N backedge <expr>`: must hold whenever the loop body jumps back
 	Defines   string   // ufunc that denotes this (pure, deterministic) function's result
 	Witness   []Clause // extra entry-state terms reported with counterexamples
+}
+
+// StoreOnly: `storeonly T.field <expr>` -- ownership protocol of a goroutine: it may write that field only of the
+// object <expr> denotes (e.g. the page whose continuation it owns).
+type StoreOnly struct {
+	Field  string // Type.field
+	Clause Clause
 }
 
 // CallAssert: `callsite <callee-key> <expr>` -- at every call of <callee> inside the function, <expr> must hold;
@@ -294,6 +302,17 @@ func (cs *ContractSet) loadFile(path, repo string) {
 			flush()
 			if cur != nil {
 				cur.Owns = append(cur.Owns, strings.Fields(rest)...)
+			}
+		case "storeonly":
+			flush()
+			if cur != nil {
+				fld, ex := splitWord(rest)
+				e, err := parseSpec(ex)
+				if err != nil {
+					cs.errf("%s: storeonly: %v", at, err)
+				} else {
+					cur.StoreOnly = append(cur.StoreOnly, StoreOnly{Field: fld, Clause: Clause{Expr: e, Src: ex, Where: at}})
+				}
 			}
 		case "nolockexit":
 			flush()
